@@ -481,12 +481,18 @@ NOT_APPLICABLE = {
 
 # clauses added while strengthening the modules against seeded changes (appended to the claim text by bin/genmanifest)
 ADDENDA = {
+    "C18": "A displaced in-progress entry stays shareable for the clients already collapsed on it (release(true) at the four displacement sites).",
+    "C40": "Directory listings: token-array subscripts are inside [0, count) with count <= the array size, and a cursor into the line is advanced only off a non-NUL byte. Address strings: a width-limited last field is followed by a test on the next byte (found and repaired: \"...,0,1000\" was accepted as port 100).",
+    "C43": "parse()/match() are decided by a concrete Range interpreter: the integers covered after a token are those before plus [port1, port2]; match(i) is true exactly for start <= i < end.",
+    "C48": "Limit tests over caller-supplied 32-bit sizes cannot wrap (found and repaired: SBuf::chop and SBuf::rawSpace); backward-scan cursors start inside the content.",
+    "C50": "The pointwise-mutator rule also accepts the index form (i < N, N >= 256 or chars_.size()).",
+    "C51": "trim(wantSpace) runs only after the value being replaced was deleted.",
     "C01": "The 'stored whole' verdict is cleared whenever FwdState re-forwards (a discarded 502's verdict cannot complete the retry's truncated reply).",
     "C02": "A server connection is judged persistent only with the whole request sent; identity request bodies are consumed from inBuf by exactly the amount the body pipe accepted.",
-    "C05": "kick() always consults pipeline.front() once the connection is known open and releases a deferred front regardless of readMore; no request is parsed while a request body is being read.",
+    "C05": "kick() always consults pipeline.front() once the connection is known open and releases a deferred front regardless of readMore; no request is parsed while a request body is being read. Responses queued behind the one in progress survive: only the two confirmed callers may stopReceiving(); the size of the request body just read is attributed to pipeline.back() (found and repaired: finishDechunkingRequest stamped it on pipeline.front()).",
     "C06": "The write-completion handlers close their own side only when the other side is established gone (mirrored).",
-    "C08": "IdleConnList::push copies every live entry when the array grows and appends at theList_[size_].",
-    "C09": "Plus two crash preconditions: every function deleting header entries repairs the HttpHeader mask before returning (delById asserts on a stale mask) and every consumeInput() caller establishes a positive amount.",
+    "C08": "IdleConnList::push copies every live entry when the array grows and appends at theList_[size_]. checkTimeouts() sweeps the descriptor table up to and including Biggest_FD.",
+    "C09": "Plus two crash preconditions: every function deleting header entries repairs the HttpHeader mask before returning (delById asserts on a stale mask) and every consumeInput() caller establishes a positive amount. In HttpStateData nothing but return follows mustStop().",
     "C10": "The rock reader issues a disk read only with the requested offset inside the current slice (the slot walk is a loop); ufs/aufs/diskd write failures must end the swap-out with an error (two known findings: BlockingFile and DiskThreadsDiskFile drop them).",
     "C13": "The mark value is escaped with flags that make the encoding injective ('%' and the double quote escaped).",
     "C14": "A match in an entity-tag list is sticky; a 304 is merged into the freshest reply.",
@@ -496,13 +502,13 @@ ADDENDA = {
     "C22": "Version digit strings are read through their first digit only when they have exactly one.",
     "C25": "Only the single CR of a CRLF line end is dropped before the bare-CR guards run.",
     "C26": "The list scan stops early only with sawBad.",
-    "C28": "canonize() clips length to the representation after offset got its final value; only canonical specs are kept and none is dropped by merge().",
-    "C30": "The canonical path keeps every byte legal in path-and-query verbatim, in particular '?' (found and repaired: it was percent-encoded); every Uri mutator clears the cached canonical forms.",
-    "C32": "The output cursor of html_quote is handed only to the escape copy.",
+    "C28": "canonize() clips length to the representation after offset got its final value; only canonical specs are kept and none is dropped by merge(). The '-' of a range-spec counts only inside its own list item.",
+    "C30": "The canonical path keeps every byte legal in path-and-query verbatim, in particular '?' (found and repaired: it was percent-encoded); every Uri mutator clears the cached canonical forms. Every trailing dot is removed before the empty-label rejection.",
+    "C32": "The output cursor of html_quote is handed only to the escape copy. The quoted string is terminated only after the scan reached the source's NUL.",
     "C34": "terminateAll forgets leftover body/CONNECT bytes so that they are not logged as a second record.",
     "C35": "The formatter renders gmtime() with the IMF-fixdate layout and the parser inverts with timegm(); the month table is Jan..Dec in order.",
-    "C38": "The TLV loop ends only at the end of the header block; addressFamily() is the exact both-IPv4 / both-IPv6 table.",
-    "C46": "Basic scheme: credentials become Ok only on helper result Okay; a changed password always resets the cached state.",
+    "C38": "The TLV loop ends only at the end of the header block; addressFamily() is the exact both-IPv4 / both-IPv6 table. BinaryTokenizer::want asks for more input only when more is expected.",
+    "C46": "Basic scheme: credentials become Ok only on helper result Okay; a changed password always resets the cached state. The credentials-cache key includes the request's key_extras; a helper verdict must be bound to the password it was computed for (known finding: HandleReply applies it to whatever password the shared record holds).",
     "C47": "Structural form: with concurrency a request leaves the queue only when its channel ID was found in the index.",
     "C57": "Publishing also requires the inode slot and agreement of the recorded entry size with the loaded size (found and repaired: truncated and inode-less chains were validated); the total compared with the loaded size is read after its last possible change. Known finding: walked slots are not checked to belong to the entry.",
     "C60": "The virgin-body cursors advance by exactly the amount handed on (accepted by the adapted pipe / appended to the write buffer).",
